@@ -235,8 +235,8 @@ def encResetUnrepaired (s : Enc) : Enc :=
 /-! ## Settings -/
 
 /-- The members that hold what the application configured (they are written by the OPUS_SET_*
-    requests and by nothing in `encReset` or `encodeStep`; until /repo 0b... the encoder itself could
-    overwrite `force_channels` in a multi-frame packet, that store is gone). -/
+    requests and by nothing in `encReset` or `encodeStep` (an earlier tree let a multi-frame packet
+    overwrite `force_channels`; that store has been removed from opus_encoder.c). -/
 structure Settings where
   application : Int
   forceChannels : Int
